@@ -18,6 +18,16 @@ def inputs(rng, tier):
     # import paths and strings with characters that need escaping; heads with every flag
     for i, path in enumerate(["dir/file.pn", "dir\\\\file.pn", "a\\\"b.pn", "tab\\tname.pn", "caf\\xc3\\xa9.pn", "core:text/char.pn"]):
         out.append(("ip%d" % i, 'import "%s";\npub fn head%d(a: i32) -> i32;\npub extern fn ext%d(a: i32);\nextern fn priv%d();\nconst S: []char8 = "q\\"\\\\";\n' % (path, i, i, i), "escapes"))
+    # every byte as the content of a string and of a character literal (printable characters as themselves -
+    # a quote of the other kind included -, the rest through escapes), sixteen per module
+    def spell(b, quote):
+        if b == ord(quote) or b == 92: return "\\" + chr(b)
+        if 32 <= b < 127: return chr(b)
+        return {10: "\\n", 13: "\\r", 9: "\\t", 0: "\\0"}.get(b, "\\x%02X" % b)
+    for base in range(0, 256, 16):
+        text = "".join('const S%d: []char8 = "a%sz";\n' % (b, spell(b, '"')) for b in range(base, base + 16))
+        text += "".join("const C%d: char8 = '%s';\n" % (b, spell(b, "'")) for b in range(base, min(base + 16, 128)))
+        out.append(("by%d" % base, text + 'import "it\'s/%d.pn";\n' % base, "escapes"))
     return out
 
 
